@@ -159,12 +159,22 @@ func TestVerifC10Pooled(t *testing.T) {
 		if pc, err := net.ListenPacket("udp4", "127.0.0.1:0"); err == nil {
 			qaddr = pc.LocalAddr().String()
 			qsrv = &doq.Server{Addr: qaddr, Handler: s}
-			go func() { _ = qsrv.Serve(pc, &tls.Config{Certificates: []tls.Certificate{cert}, MinVersion: tls.VersionTLS13}) }()
+			go func() {
+				_ = qsrv.Serve(pc, &tls.Config{Certificates: []tls.Certificate{cert}, MinVersion: tls.VersionTLS13})
+			}()
 			defer func() { _ = qsrv.Shutdown(); _ = pc.Close() }()
 			time.Sleep(50 * time.Millisecond)
 		}
 	}
 
+	conclusive := 0
+	defer func() {
+		if conclusive == 0 && n > 0 {
+			b, _ := json.Marshal(map[string]any{"k": "pooled-driver-blind", "nontrivial": true, "desc": map[string]any{"cases": n},
+				"go_fail": "not one DoH / DoQ request of this run reached the resolver and came back: the pooled transports serve nothing"})
+			f.Write(append(b, '\n'))
+		}
+	}()
 	for cn := 0; cn < n; cn++ {
 		chainID := map[*middleware.Chain]int{}
 		msgID := map[*dns.Msg]int{}
@@ -286,6 +296,11 @@ func TestVerifC10Pooled(t *testing.T) {
 					msgID[a.msg] = mid
 				}
 				mops, mobs = append(mops, fmt.Sprintf("KBP %d %d", q.r, mid)), append(mobs, "None")
+			case <-q.done:
+				// ended without ever reaching the resolver: nothing to attribute; a run in which
+				// this happens to every case is reported as blind below
+				inconclusive = true
+				return
 			case <-time.After(6 * time.Second):
 				inconclusive = true
 				return
@@ -393,6 +408,8 @@ func TestVerifC10Pooled(t *testing.T) {
 		}
 		if inconclusive {
 			line["inconclusive"] = true
+		} else {
+			conclusive++
 		}
 		b, _ := json.Marshal(line)
 		f.Write(append(b, '\n'))
